@@ -1,4 +1,6 @@
 """C03 - branch and PC-relative displacements reach exactly the referenced target."""
+import os
+
 from hypothesis import strategies as st
 
 from vlib import asmmodel as A
@@ -14,22 +16,26 @@ RULE = ("Programs are lists of items (NOP, RMB n, LDA 100,X, LDX #$1234, a branc
         "opcode) and LDY STS CMPD (2-byte) x plain/indirect x k in {-2,0,+2} x both directions x distance 0..140 with "
         "three filler styles, and 32750..32780 for LDA/LDY; pairs (thorough: triples) of nested PCR statements over a "
         "grid of gaps around the 8-bit limit in all direction combinations. Hypothesis draws item lists with 1-6 "
-        "relative statements and fillers biased to the limits. Oracle: accepted -> for every relative statement the "
-        "instruction decoded at its listed address has length = next row - row and (address + length + d) mod 65536 = "
-        "symbol(target) + k; rejected -> justified only if some short branch cannot reach even with every PCR "
+        "relative statements and fillers biased to the limits; a second search and an enumerated family take the "
+        "filler between source and target from one label-free file spliced in by INCLUDE, twice or more. Oracle: "
+        "accepted -> the image is walked from the origin (fixed items by their known size, relative ones by decoding "
+        "in place) giving the true address of every item; every relative statement is listed at its true address, "
+        "its target's symbol-table value is the true address of the labelled item, the instruction decoded there has "
+        "length = next row - row and (address + length + d) mod 65536 = target + k; rejected -> justified only if some short branch cannot reach even with every PCR "
         "statement at its smallest size. Non-trivial = some |distance| within 8 of 127/128 or 32767/32768, or >= 2 "
         "PCR statements with overlapping spans; distinct by case hash.")
 ASSUMPTIONS = [
     "vlib/ref6809.py is the trusted decoder; filler sizes (NOP 1, RMB n = n, LDA 100,X = 3, LDX #$1234 = 3) are what C01/C02/C05 establish",
-    "label addresses are read from the tool's symbol table and listing (their consistency is C02's subject)",
+    "label addresses are established by walking the image; the symbol table and listing must agree with the walk",
     "hangs and crashes are judged by C13 (counted as skipped here)",
 ]
-HEALTH = {"near_limit": 0.04}
+HEALTH = {"near_limit": 0.04, "include_twice": 300}
 EXHAUSTIVE = {"quick": ["short branches: 19 mnemonics x displacement -140..+140",
                         "long branches: 19 mnemonics x both directions x distance 0..140",
                         "label,PCR: 7 mnemonics x plain/indirect x k in -2,0,2 x both directions x distance 0..140",
                         "one PCR statement spanning 1-6 unsized PCR statements (far/near) x distance 118..136 x both directions",
-                        "two crossing PCR statements x gaps 112..129 x 112..129"],
+                        "two crossing PCR statements x gaps 112..129 x 112..129",
+                        "filler from a file included twice: 5 branches + 3 PCR mnemonics x distance 112..135 x both directions"],
               "thorough": ["as quick, plus nested PCR triples over a 10x10x10 gap grid"]}
 
 SHORT = ["BCC", "BCS", "BEQ", "BGE", "BGT", "BHI", "BHS", "BLE", "BLO", "BLS", "BLT", "BMI", "BNE", "BPL", "BRA", "BRN",
@@ -50,6 +56,8 @@ def item_text(item):
         return A.line(lab, "LDA", "100,X")
     if t == "ldx":
         return A.line(lab, "LDX", "#$1234")
+    if t == "inc":          # the macro file (label-free filler statements), spliced by INCLUDE
+        return A.line("", "INCLUDE", MACRO_FILE)
     if t == "br":
         return A.line(lab, item["mn"], item["to"])
     if t == "pcr":
@@ -68,6 +76,8 @@ def size_bounds(item):
         return item["n"], item["n"]
     if t in ("lda8", "ldx"):
         return 3, 3
+    if t == "inc":
+        return item["n"], item["n"]
     if t == "br":
         mn = item["mn"]
         if mn in SHORT:
@@ -75,6 +85,15 @@ def size_bounds(item):
         return (3, 3) if mn in ("LBRA", "LBSR") else (4, 4)
     op = 2 if item["mn"] in PCR2 else 1
     return op + 2, op + 3
+
+
+MACRO_FILE = "filler.asm"
+
+
+def macro_lines(case):
+    """the label-free statements of the included file (None when the program has no INCLUDE)"""
+    m = case.get("macro")
+    return [item_text(i) for i in fill(m["n"], m["style"])] if m else None
 
 
 def build(case):
@@ -185,12 +204,37 @@ def enumerated(tier, seed):
         for n1 in range(112, 130):
             for n2 in range(112, 130):
                 yield crossing(ma, mb, n1, n2)
+    # 8. the filler between source and target comes from one label-free file included twice
+    yield from include_family()
     if tier == "thorough":
         g = [0, 1, 40, 41, 42, 43, 44, 45, 80, 120]
         for a in g:
             for b in g:
                 for c in g:
                     yield nested3(a, b, c)
+
+
+def via_include(src, dist, forward, m, style):
+    """one relative statement whose filler is the same label-free file included twice plus a rest"""
+    rest = fill(dist - 2 * m, 1)
+    f = [dict(t="inc", n=m), dict(t="inc", n=m)] + rest
+    if forward:
+        items = [dict(t="nop"), src] + f + [dict(t="nop", label="T0"), dict(t="nop")]
+    else:
+        items = [dict(t="nop"), dict(t="nop", label="T0")] + f + [src, dict(t="nop")]
+    return dict(org=0x0200, items=items, macro=dict(n=m, style=style))
+
+
+def include_family():
+    for mn in ("BRA", "BSR", "LBRA", "LBSR", "LBEQ"):
+        for dist in range(112, 136):
+            for forward in (True, False):
+                yield via_include(dict(t="br", mn=mn, to="T0"), dist, forward, 50, dist % 3)
+    for mn in ("LDA", "LEAX", "LDY"):
+        for ind in (False, True):
+            for dist in range(112, 136):
+                for forward in (True, False):
+                    yield via_include(dict(t="pcr", mn=mn, ind=ind, to="T0", k=0), dist, forward, 50, dist % 3)
 
 
 def nested2(mo, mi, g1, g2, g3, dirs):
@@ -263,11 +307,14 @@ _rel = st.one_of(
 _segment = st.tuples(_gap, st.integers(0, 2), _rel)
 
 
-def _mk_program(segments, tail_gap, org):
+def _mk_program(segments, tail_gap, org, macro=None):
     items = []
     nlabels = 0
     for gap, style, rel in segments:
-        f = fill(gap, style) or [dict(t="nop")]
+        if macro and gap % 3 != 0:      # this segment's filler is the included file (its size replaces the drawn gap)
+            f = [dict(t="nop"), dict(t="inc", n=macro["n"])]
+        else:
+            f = fill(gap, style) or [dict(t="nop")]
         f[0] = dict(f[0], label="T%d" % nlabels)
         nlabels += 1
         items += f + [dict(rel)]
@@ -278,15 +325,21 @@ def _mk_program(segments, tail_gap, org):
     for it in items:
         if it["t"] in ("pcr", "br"):
             it["to"] = "T%d" % (it["to"] % nlabels)
+    if macro and sum(1 for it in items if it["t"] == "inc"):
+        return dict(org=org, items=items, macro=macro)
     return dict(org=org, items=items)
 
 
 _program = st.builds(_mk_program, st.lists(_segment, min_size=1, max_size=6), _gap,
                      st.sampled_from([0x0000, 0x0100, 0x0E00, 0x7F80, 0xF000]))
+_macro = st.fixed_dictionaries(dict(n=st.one_of(st.integers(1, 12), st.integers(30, 64), st.integers(100, 130)), style=st.integers(0, 2)))
+_program_inc = st.builds(_mk_program, st.lists(_segment, min_size=2, max_size=6), _gap,
+                         st.sampled_from([0x0000, 0x0100, 0x0E00, 0x7F80, 0xF000]), _macro)
 
 
 def searches(tier):
-    return [("programs", _program, 6000 if tier == "quick" else 300000)]
+    return [("programs", _program, 6000 if tier == "quick" else 300000),
+            ("programs_with_include", _program_inc, 1500 if tier == "quick" else 60000)]
 
 
 def execute(case):
@@ -332,7 +385,17 @@ def execute(case):
     if npcr >= 2:
         labels.append("multi_pcr")
     nontrivial = near or npcr >= 2
-    out = driver.assemble(lines, timeout=60)
+    mlines = macro_lines(case)
+    if mlines is None:
+        out = driver.assemble(lines, timeout=60)
+    else:
+        labels.append("include")
+        if sum(1 for it in items if it["t"] == "inc") >= 2:
+            labels.append("include_twice")
+        with driver.TempDir() as tmp:
+            with open(os.path.join(tmp, MACRO_FILE), "w", newline="") as fh:
+                fh.write("".join(mlines))
+            out = driver.assemble(lines, timeout=60, cwd=tmp)
     if out.kind in ("CRASH", "HANG"):
         return skip("crash/hang: judged by C13 ({} {})".format(out.exc, out.frame), labels=labels)
     if out.kind == "DIAG":
@@ -346,15 +409,40 @@ def execute(case):
                     fid="C03:short-branch-not-rejected", labels=labels)
     symbols = dict(out.symbols)
     rows = out.rows
-    if len(rows) != len(items) + 1:
-        return viol("listing has {} rows for {} statements".format(len(rows), len(items) + 1), fid="C03:rows", labels=labels)
+    # listing row of every item: an INCLUDE line is replaced by the rows of the file's statements
+    row_of = []
+    r = 1
+    for it in items:
+        row_of.append(r)
+        r += len(mlines) if it["t"] == "inc" else 1
+    if len(rows) != r:
+        return viol("listing has {} rows for {} statements".format(len(rows), r), fid="C03:rows", labels=labels)
     origin = out.origin if out.origin is not None else 0
+    # where every item really is in the image: sizes of the fixed items are known, relative ones are decoded in place
+    real = []
+    a = origin
+    for it in items:
+        real.append(a)
+        if it["t"] in ("pcr", "br"):
+            insn = R.decode(out.image, a - origin)
+            if insn is None:
+                return viol("{}: bytes at image offset {} do not decode".format(item_text(it).strip(), a - origin),
+                            fid="C03:malformed", labels=labels)
+            a += insn.length
+        else:
+            a += size_bounds(it)[0]
+    if a - origin != len(out.image):
+        return viol("image is {} bytes, the statements add up to {}".format(len(out.image), a - origin), fid="C03:image-size", labels=labels)
+    real_label = dict((it["label"], real[i]) for i, it in enumerate(items) if it.get("label"))
     for i in rel_idx:
         it = items[i]
-        addr = rows[i + 1][0]
-        nxt = rows[i + 2][0] if i + 2 < len(rows) else origin + len(out.image)
+        addr = rows[row_of[i]][0]
+        nxt = rows[row_of[i] + 1][0] if row_of[i] + 1 < len(rows) else origin + len(out.image)
         insn = R.decode(out.image, addr - origin)
         text = lines[i + 1].strip()
+        if addr != real[i]:
+            return viol("{} is listed at ${:04X} but its bytes are at ${:04X} of the image loaded at the origin".format(
+                text, addr, real[i]), fid="C03:listed-address", labels=labels)
         if insn is None:
             return viol("{}: bytes at ${:04X} do not decode".format(text, addr), fid="C03:malformed", labels=labels)
         if insn.length != nxt - addr:
@@ -377,6 +465,9 @@ def execute(case):
         if target is None:
             return viol("label {} missing from the symbol table".format(it["to"]), fid="C03:symbol", labels=labels)
         reach = (addr + insn.length + d) % 65536
+        if target != real_label[it["to"]]:
+            return viol("label {} is ${:04X} in the symbol table but the labelled statement's bytes are at ${:04X}".format(
+                it["to"], target, real_label[it["to"]]), fid="C03:symbol-address", labels=labels)
         if reach != (target + k) % 65536:
             return viol("{} at ${:04X} (length {}, displacement {}) reaches ${:04X}, target {}{:+d} is ${:04X}; bytes {}".format(
                 text, addr, insn.length, d if d < 32768 else d - 65536, reach, it["to"], k, (target + k) % 65536,
